@@ -26,23 +26,22 @@ def main():
             if b.returncode!=0:
                 print(f'{name}: DOES NOT COMPILE\n{b.stdout}'); bad+=1; continue
             harmless = '/harmless/' in mf
-            for prop in m['properties']:
-                r=sh(f'cd /verif && ./bin/digvc check --property {prop} --repo {d} --out /root/scratch/selftest_verif_{name}')
-                viol=[l for l in r.stdout.split('\n') if l.startswith('VIOLATION')]
-                if harmless:
-                    ok = not viol and r.returncode==0
-                    print(f'{name} [{prop}]: {"silent OK" if ok else "FALSE ALARM"}')
-                    if not ok:
-                        bad+=1; print('\n'.join(viol[:5]))
-                else:
-                    exp=m.get('expect',[])
-                    hit=[e for e in exp if any(e in v for v in viol)]
-                    ok = bool(viol) and (not exp or hit)
-                    print(f'{name} [{prop}]: {"caught" if ok else "MISSED"} ({len(viol)} violations; expected {exp})')
-                    if not ok:
-                        bad+=1; print(r.stdout[-1500:])
-                    elif os.environ.get('V'):
-                        print('\n'.join(viol[:6]))
+            props=m['properties']
+            r=sh(f'cd /verif && ./bin/digvc check --property {",".join(props)} --repo {d} --out /root/scratch/selftest_verif_{name}')
+            viol=[l for l in r.stdout.split('\n') if l.startswith('VIOLATION')]
+            if harmless:
+                ok = not viol
+                print(f'{name}: {"silent OK" if ok else "FALSE ALARM"}')
+                if not ok:
+                    bad+=1; print('\n'.join(v[:230] for v in viol[:8]))
+            else:
+                exp=m.get('expect',[])
+                hit=[e for e in exp if any(e in v for v in viol)]
+                ok = bool(viol) and (not exp or hit)
+                caught=sorted({v.split('property=')[1].split()[0] for v in viol})
+                print(f'{name}: {"caught by "+",".join(caught) if ok else "MISSED"} ({len(viol)} violation lines; expected {exp})')
+                if not ok:
+                    bad+=1; print(r.stdout[-800:])
         finally:
             shutil.rmtree(d, ignore_errors=True)
             for p in glob.glob('/root/scratch/selftest_verif_*'): shutil.rmtree(p, ignore_errors=True)
